@@ -325,13 +325,14 @@ def _legacy(chk, repo):
         chk.add("C09-R4", f"{ci.qual}.sample/{fname.split('.')[-1]}-loop", ok, site(repo, lp),
                 "sweep then store of all blocks at the sweep's index", f"loop body is {b[:2]}", lp)
     init_ok = any(isinstance(s, ast.Assign) and unparse(s) == "current_samples = self._get_initial_points()" for s in smp.body)
-    ss = repo.method(ci, "_store_samples")[1]
+    ss_src = repo.method(ci, "_store_samples")[1]
+    ss = canon_fn(repo, ci, ss_src, 4)          # loop normal forms (while / indexed loops -> for e in S), aliases of self.par_names substituted
     lp = _single_loop(ss, f"{ci.qual}._store_samples")
     ps = func_params(ss)
     ok = unparse(lp.iter) == "self.par_names" and len(lp.body) == 1 and \
         unparse(lp.body[0]) == f"{ps[1]}[{lp.target.id}][:, {ps[3]}] = {ps[2]}[{lp.target.id}]"
-    chk.add("C09-R4", f"{ci.qual}._store_samples", ok and init_ok, site(repo, ss), "stores every block's value in column i",
-            "not every block is stored, or sampling does not start from _get_initial_points()", ss)
+    chk.add("C09-R4", f"{ci.qual}._store_samples", ok and init_ok, site(repo, ss_src), "stores every block's value in column i",
+            "not every block is stored, or sampling does not start from _get_initial_points()", ss_src)
     # continuation: the history of a further call is the stored sweeps FOLLOWED by the new columns (sweeps are stored at absolute indices Ns_old + i)
     from .common import match as _match, stmts as _stmts
     al = repo.method(ci, "_allocate_samples")[1]
